@@ -11,7 +11,12 @@
    SPECDEC <file> [STRUCT] <desc>...      the extracted independent decoder
        desc:   b<off>:<len>   p<off>:<records>:<proto>
        -> wf=<0|1> container=<0|1> descs=<0|1 per descriptor> disjoint=<0|1> xml=<fnv>
-          then, unless STRUCT, per descriptor  # bl ok n= h=  /  # pc n= end=none h= [pts=]  (or  # undecodable) *)
+          then, unless STRUCT, per descriptor  # bl ok n= h=  /  # pc n= end=none h= [pts=]  (or  # undecodable)
+   SPECDX <xmlhex>                        the descriptors the XML states (FileSpecXml.dx_of: xml_parse, extract_all)
+       -> dx=<desc,desc,...> in document order (point clouds, then image blobs) | dx=none
+   SPECDECX <file>                        the decoder with the XML plugged in (FileSpecXml.spec_wellformed_xml)
+       -> wfx=<0|1> dx=<...|none>
+   Float texts are parsed by OCaml's float_of_string (an oracle for the extractors; the descriptors hold no floats). *)
 open Conv
 open Drv_core
 
@@ -105,8 +110,49 @@ let run_specdec (toks : string list) : string =
                  (if Stdlib.String.length txt <= 1500 then " pts=" ^ txt else "")) d.FileSpec.dec_items))
   | _ -> failwith "bad SPECDEC case"
 
+
+(* float oracles: bits of the value OCaml reads; texts Rust's parser also accepts for the writer's own output *)
+let n_of_u64 (x : int64) : BinNums.coq_N = n_of_decimal (Printf.sprintf "%Lu" x)
+let text_of (s : BinNums.coq_N list) : string =
+  let b = Buffer.create 16 in Stdlib.List.iter (fun x -> Buffer.add_char b (Char.chr (int_of_n x land 255))) s; Buffer.contents b
+let float_text_ok (t : string) : bool =
+  t <> "" && not (Stdlib.String.contains t '_') && not (Stdlib.String.contains t 'x') && not (Stdlib.String.contains t 'X')
+let pf64 (s : BinNums.coq_N list) : BinNums.coq_N option =
+  let t = text_of s in
+  if not (float_text_ok t) then None else
+    match float_of_string_opt t with Some v -> Some (n_of_u64 (Int64.bits_of_float v)) | None -> None
+let pf32 (s : BinNums.coq_N list) : BinNums.coq_N option =
+  let t = text_of s in
+  if not (float_text_ok t) then None else
+    match float_of_string_opt t with
+    | Some v -> Some (n_of_u64 (Int64.logand (Int64.of_int32 (Int32.bits_of_float v)) 0xFFFFFFFFL))
+    | None -> None
+
+let show_type (t : Record.dtype) : string =
+  match t with
+  | Record.TSingle -> "F" | Record.TDouble -> "D"
+  | Record.TInteger (a, b) -> "I/" ^ decimal_of_z a ^ "/" ^ decimal_of_z b
+  | Record.TScaled (a, b) -> "S/" ^ decimal_of_z a ^ "/" ^ decimal_of_z b
+
+let show_desc (d : FileSpec.descriptor) : string =
+  match d with
+  | FileSpec.DBlob (o, l) -> "b" ^ decimal_of_n o ^ ":" ^ decimal_of_n l
+  | FileSpec.DPc (o, n, proto) ->
+    "p" ^ decimal_of_n o ^ ":" ^ decimal_of_n n ^ ":" ^ Stdlib.String.concat "," (Stdlib.List.map show_type proto)
+
+let show_dx (x : BinNums.coq_N list) : string =
+  match FileSpecXml.dx_of pf64 pf32 XmlExtract.f64_div_u32_bits x with
+  | Some l -> "dx=" ^ Stdlib.String.concat ";" (Stdlib.List.map show_desc l)
+  | None -> "dx=none"
+
 let run (kind : string) (toks : string list) : string option =
   match kind with
   | "SPECENC" -> Some (run_specenc toks)
   | "SPECDEC" -> Some (run_specdec toks)
+  | "SPECDX" -> Some (show_dx (bytes_of_hex (match toks with t :: _ -> t | [] -> "")))
+  | "SPECDECX" ->
+    let f = resolve_dev (match toks with t :: _ -> t | [] -> "") in
+    let wf = FileSpecXml.spec_wellformed_xml pf64 pf32 XmlExtract.f64_div_u32_bits f in
+    Some (Printf.sprintf "wfx=%d %s" (if wf then 1 else 0)
+            (if FileSpec.container_ok f then show_dx (FileSpec.file_xml f) else "dx=none"))
   | _ -> None
